@@ -535,6 +535,19 @@ class Replayer(object):
         self.model = model or Model()
         self.evals = 0
         self.diverged = False
+        self.held = []      # earlier lookup results that are still in use (formatters keep a match until result())
+
+    def check_held(self, now):
+        """A reported match describes ITS step text: later lookups (also of the same definition) leave it alone."""
+        for what, text, match, snapshot in self.held:
+            current = [(a.name, a.original, a.start, a.end, repr(a.value)) for a in match.arguments]
+            if current != snapshot:
+                self.res.fail("C11.argument.aliased", "the match reported for %s changed when %s was looked up: arguments "
+                              "(name, original, start, end, value) were %r, are now %r" % (what, now, snapshot, current))
+                self.held = []
+                return
+        if self.held:
+            self.res.label("look:earlier-match-still-held")
 
     def run_op(self, op, known_args=None):
         reason = self.model.invalid(op)
@@ -672,6 +685,9 @@ class Replayer(object):
             return
         # -- arguments as reported
         reported = match.arguments
+        self.check_held(what)
+        self.held = self.held[-3:] + [(what, text, match,
+                                       [(a.name, a.original, a.start, a.end, repr(a.value)) for a in reported])]
         for a in reported:
             if a.original is None:
                 continue
@@ -1375,7 +1391,7 @@ def required_labels(tier):
                "field:re-named", "field:re-unnamed", "field:re-optional", "field:anonymous", "field:quoted",
                "inst:optional-absent", "inst:optional-present", "inst:card-empty",
                "look:bound", "look:unbound", "look:other-step-type", "look:specific-over-generic",
-               "look:earlier-over-later", "look:generic-hit",
+               "look:earlier-over-later", "look:generic-hit", "look:earlier-match-still-held",
                "reg:added", "reg:ignored", "reg:ambiguous", "hist:nontrivial",
                "modules:default-after-switch", "modules:env-default", "modules:sibling-import",
                "modules:cwd-1", "modules:cwd-2", "modules:cwd-3"])
